@@ -192,7 +192,7 @@ func (m *MonC09) heldWithoutSubscription(w *World) {
 			stack = stack[:len(stack)-1]
 			r := c.Ref.Held[rid]
 			visit := func(v interface{}) {
-				if ref, ok := isRef(v); ok {
+				if ref, ok := c.Ref.isRef(v); ok {
 					if x := c.Ref.Held[ref]; x != nil && !x.Deleted && !live[ref] {
 						live[ref] = true
 						stack = append(stack, ref)
